@@ -239,7 +239,7 @@ def run(ctx):
     G = o.G
     collapse = sentences.interchange_classes(G)
     rules = [r.name for r in o.parser_rules]
-    budget = 15000 if ctx.quick else 150000
+    budget = 15000 if ctx.quick else 400000
     per = sentences.per_rule_sentences(G, rules, collapse, budget)
     cx = sentences.contexts(G)
     sh = sentences.shortest(G)
